@@ -4,9 +4,9 @@ from tools import common, worldcheck, recordings, gen_const, synth, gen_types
 LEVEL = 'proof'
 
 
-def sweep(ctx, dialect, maxn, exh, elem=None):
+def sweep(ctx, dialect, maxn, exh, elem=None, shape='A'):
     rng = ctx.rng
-    ds = synth.sweep_defset(elem=elem or rng.choice([('u', 2), ('u', 1), ('i', 4), ('string',), ('vec', 12)]))
+    ds = synth.sweep_defset(elem=elem or rng.choice([('u', 2), ('u', 1), ('i', 4), ('string',), ('vec', 12)]), shape=shape)
     d = synth.write_defset(ds, rng)
     try:
         pl = synth.make_player(dialect, d); view = synth.LibView(pl)
@@ -73,6 +73,7 @@ def run(ctx):
     ok = True
     for k, dialect in enumerate(('wows', 'wot') if q else ('wows', 'wows126', 'wot')):
         ok &= sweep(ctx, dialect, 40, 4 if q else 6, elem=(('u', 1), ('u', 2))[k % 2] if k < 2 else None)     # one-/two-byte elements: the grown-list phase runs
+    ok &= sweep(ctx, 'wows', 12, 3, elem=('u', 2), shape='B')      # an entity with a BASE_AND_CLIENT property: 5 exposed / 4 own-client properties
     ctx.obligation('correspondence: library = extracted model on the nested sweeps', ok)
     for n in (122, 123, 124, 125, 130, 200, 249, 250): big_payload(ctx, n)     # payload lengths 126..254 around the signed-byte boundary
     worldcheck.run_histories(ctx, 'C06', n_defsets=8 if q else 60, hist_per_set=3, sizes=[80, 250] if q else [80, 250, 700],
